@@ -4,7 +4,8 @@
    positional value of digit strings. *)
 From Coq Require Import ZArith List String Bool Arith Lia.
 From SV Require Import C14.Tokens C14.Parse C14.Print C14.Scan C14.ProofsScan
-  C14.ProofsBase C14.ProofsExpr C14.ProofsTop C14.ProofsLayout C14.PrintStmt C14.ProofsStmt C14.ProofsStmt2 C14.ProofsSound C14.ProofsValid C14.ProofsValid3.
+  C14.ProofsBase C14.ProofsExpr C14.ProofsTop C14.ProofsLayout C14.PrintStmt C14.ProofsStmt C14.ProofsStmt2 C14.ProofsSound C14.ProofsValid C14.ProofsValid3
+  C14.ProofsSoundStmt C14.ProofsSoundStmt2 C14.ProofsSoundStmt3 C14.ProofsSoundStmt4.
 Import ListNotations.
 Open Scope nat_scope.
 
@@ -258,4 +259,210 @@ Example parse_print_file_ex :
 Proof.
   split; [vm_compute; reflexivity|]. split; [vm_compute; reflexivity|]. split; [vm_compute; repeat constructor|].
   split; vm_compute; reflexivity.
+Qed.
+
+(* ------------------------------------------------------------------------ *)
+(* (6) parse_sound for STATEMENTS and FILES: the converse of (4), for ALL token
+   lists and ALL fuel.  Whatever the statement / file parser accepts is the
+   rendering (PrintStmt.v) of a WELL-FORMED concrete statement tree `c` whose
+   Go-shaped projection `flatten c` is the tree returned.  All forms: lines of
+   small statements with `;` (assignment with every augmented operator,
+   expression statements, return / break / continue / pass, load with aliases
+   and trailing comma), if / elif / else, for, while, def with every parameter
+   form, inline and indented suites.
+
+   Token lists are compared through U (kinds and values; positions dropped; the
+   parser-synthesised NOT_IN expanded back to `not` `in`); NEWLINE / INDENT /
+   OUTDENT are ordinary tokens there.  Definitions (ProofsSoundStmt.v):
+
+     renders u toks r  :=  u = U toks ++ U r
+                        \/ (peek r = EOF /\ exists X, U toks = X ++ [NEWLINE] /\ u = X ++ U r)
+        -- the second alternative is grammar.txt's "'\n' optional at EOF": the
+           NEWLINE ending the last line may be missing when the lookahead is EOF;
+
+     no_empty_block u  :=  forall a b, u <> a ++ INDENT :: OUTDENT :: b
+        -- parseSuite accepts NEWLINE INDENT OUTDENT as an EMPTY block, which is
+           not a suite of the grammar (`stmt+`): see
+           parse_sound_stmt_unconditional_refuted below.  The scanner emits an
+           INDENT only directly before the first token of the line that caused
+           it (layout_establishes_premises), so the premise holds for every
+           token list the parser is ever given.
+
+     file_text u f  -- u is the statements of f rendered one after the other,
+           with any number of blank NEWLINE tokens before each (the parser skips
+           NEWLINE at top level; the scanner emits none:
+           file_near_miss_scanner_shaped removes them), the last statement
+           possibly without its final NEWLINE, then the end of the list or an
+           EOF token followed by anything (never looked at). *)
+Theorem parse_sound_stmt :
+  forall (n : nat) (ts : list ptok) (l : list stmt) (r : list ptok),
+    p_stmt (parsers n) ts = Ok (l, r) -> no_empty_block (U ts) ->
+    exists c : cstmt, cstmt_ok c = true /\ flatten c = l /\ renders (U ts) (tokens_c c) r.
+Proof. exact parse_sound_stmt_lemma. Qed.
+
+(* a line of small statements (parseSimpleStmt): no premise at all *)
+Theorem parse_sound_simple_stmt :
+  forall (n : nat) (ts : list ptok) (l : list stmt) (r : list ptok),
+    p_simpleStmt (parsers n) ts = Ok (l, r) ->
+    line_ok l = true /\ exists sm : bool, renders (U ts) (line_tokens l sm) r.
+Proof. exact parse_sound_simple_stmt_lemma. Qed.
+
+Theorem parse_sound_suite :
+  forall (n : nat) (ts : list ptok) (l : list stmt) (r : list ptok),
+    p_suite (parsers n) ts = Ok (l, r) -> no_empty_block (U ts) ->
+    exists s : csuite, csuite_ok s = true /\ flatten_s s = l /\ renders (U ts) (tokens_s s) r.
+Proof. exact parse_sound_suite_lemma. Qed.
+
+Theorem parse_sound_file :
+  forall (n : nat) (ts : list ptok) (l : list stmt),
+    p_file (parsers n) ts = Ok l -> no_empty_block (U ts) ->
+    exists f : list cstmt, forallb cstmt_ok f = true /\ flat_map flatten f = l /\ file_text (U ts) f.
+Proof. exact parse_sound_file_lemma. Qed.
+
+(* near-miss corollary for FileOptions.Parse as the model runs it: ANY token
+   list (e.g. a valid file with a token deleted, duplicated or swapped) that is
+   accepted is the text of the well-formed file f whose tree is returned, and f
+   parses back to that tree from its rendering; all others are rejected. *)
+Theorem file_near_miss_rejected_or_rendering :
+  forall (ts : list ptok) (l : list stmt),
+    parse_file ts = Ok l -> no_empty_block (U ts) ->
+    exists f : list cstmt,
+      forallb cstmt_ok f = true /\ flat_map flatten f = l /\ file_text (U ts) f /\
+      (forall p n, 40 * csizes f + 12 <= n ->
+         p_file (parsers n) (flat_map tokens_c f ++ [(EOF, p)]) = Ok l).
+Proof. exact file_near_miss_lemma. Qed.
+
+(* the same for a token list of the shape the scanner produces -- no
+   blank-line NEWLINE (every NEWLINE directly follows a token that is not
+   NEWLINE / INDENT / OUTDENT), nothing after the first EOF: the accepted list
+   is EXACTLY the rendering of f, up to the optional final NEWLINE, then EOF. *)
+Theorem file_near_miss_scanner_shaped :
+  forall (ts : list ptok) (l : list stmt),
+    parse_file ts = Ok l ->
+    no_empty_block (U ts) -> no_blank_line true (U ts) -> (forall a b, U ts = a ++ EOF :: b -> b = []) ->
+    exists f : list cstmt,
+      forallb cstmt_ok f = true /\ flat_map flatten f = l /\
+      exists tail, (tail = [] \/ tail = [EOF]) /\
+        (U ts = U (flat_map tokens_c f) ++ tail \/
+         exists X, U (flat_map tokens_c f) = X ++ [NEWLINE] /\ U ts = X ++ tail).
+Proof. exact file_near_miss_scanner_lemma. Qed.
+
+(* Without the premise no_empty_block the statement is false: the token list
+   IF x COLON NEWLINE INDENT OUTDENT is accepted with an empty body, and no
+   well-formed concrete tree has that projection.  (Not reachable through the
+   scanner: layout_establishes_premises.) *)
+Theorem parse_sound_stmt_unconditional_refuted :
+  exists (n : nat) (ts : list ptok) (l : list stmt) (r : list ptok),
+    p_stmt (parsers n) ts = Ok (l, r) /\ ~ exists c : cstmt, cstmt_ok c = true /\ flatten c = l.
+Proof. exact parse_sound_stmt_unconditional_refuted_lemma. Qed.
+
+(* With NO premise at all -- every fuel, every token list -- the accepted list
+   is still the rendering of the concrete tree returned, well-formed in the
+   reading `cstmt_okg false` (ProofsSoundStmt.v): exactly cstmt_ok except that an
+   indented block may be empty (cstmt_okg true = cstmt_ok: okg_true_c).  So the
+   empty block is the ONLY thing the statement parser accepts outside the
+   grammar. *)
+Theorem parse_sound_stmt_empty_blocks :
+  forall (n : nat) (ts : list ptok) (l : list stmt) (r : list ptok),
+    p_stmt (parsers n) ts = Ok (l, r) ->
+    exists c : cstmt, cstmt_okg false c = true /\ flatten c = l /\ renders (U ts) (tokens_c c) r.
+Proof. exact parse_sound_stmt_weak_lemma. Qed.
+
+Theorem parse_sound_file_empty_blocks :
+  forall (n : nat) (ts : list ptok) (l : list stmt),
+    p_file (parsers n) ts = Ok l ->
+    exists f : list cstmt, forallb (cstmt_okg false) f = true /\ flat_map flatten f = l /\ file_text (U ts) f.
+Proof. exact parse_sound_file_weak_lemma. Qed.
+
+Theorem strict_wellformed_is_cstmt_ok :
+  (forall c : cstmt, cstmt_okg true c = cstmt_ok c) /\ (forall s : csuite, csuite_okg true s = csuite_ok s).
+Proof. exact strict_wellformed_lemma. Qed.
+
+(* The layout algorithm of the scanner (Scan.v (b)) establishes both premises
+   for every event stream it produces: an INDENT is directly followed by the
+   line that caused it, a NEWLINE directly follows a line. *)
+Theorem layout_establishes_premises :
+  forall (A : Type) (ls : list (pline A)) (final_newline : bool) (evs : list (ev A)),
+    layout ls final_newline = LOk evs ->
+    indent_then_line evs /\ newline_after_line false evs /\
+    (forall a b, evs <> a ++ EvIndent :: EvOutdent :: b) /\
+    (forall a b, evs <> a ++ EvNewline :: EvNewline :: b) /\
+    (forall a b, evs <> a ++ EvOutdent :: EvNewline :: b) /\
+    (forall a b, evs <> a ++ EvIndent :: EvNewline :: b) /\
+    (forall b, evs <> EvNewline :: b).
+Proof. exact layout_premises_lemma. Qed.
+
+(* rendering is injective on well-formed concrete statement trees, suites and
+   files: two of them never share a text (including the concrete-syntax bits:
+   optional trailing `;`, inline or indented suite, trailing commas) *)
+Theorem print_stmt_injective :
+  forall c1 c2 : cstmt,
+    cstmt_ok c1 = true -> cstmt_ok c2 = true -> tokens_c c1 = tokens_c c2 -> c1 = c2.
+Proof. exact print_stmt_injective_lemma. Qed.
+
+Theorem print_suite_injective :
+  forall s1 s2 : csuite,
+    csuite_ok s1 = true -> csuite_ok s2 = true -> tokens_s s1 = tokens_s s2 -> s1 = s2.
+Proof. exact print_suite_injective_lemma. Qed.
+
+Theorem print_file_injective :
+  forall f1 f2 : list cstmt,
+    forallb cstmt_ok f1 = true -> forallb cstmt_ok f2 = true ->
+    flat_map tokens_c f1 = flat_map tokens_c f2 -> f1 = f2.
+Proof. exact print_file_injective_lemma. Qed.
+
+(* premises are satisfiable:
+     def f(a, b=1):
+         for x in a:
+             if x: return x
+         return b
+     y = f([1], 2); pass                                                      *)
+Definition ex2_tokens : list ptok :=
+  [(DEF,(1,1)); (IDENT "f",(1,5)); (LPAREN,(1,6)); (IDENT "a",(1,7)); (COMMA,(1,8)); (IDENT "b",(1,10));
+   (EQ,(1,11)); (INT 1,(1,12)); (RPAREN,(1,13)); (COLON,(1,14)); (NEWLINE,(1,15));
+   (INDENT,(2,5)); (FOR,(2,5)); (IDENT "x",(2,9)); (IN,(2,11)); (IDENT "a",(2,14)); (COLON,(2,15)); (NEWLINE,(2,16));
+   (INDENT,(3,9)); (IF,(3,9)); (IDENT "x",(3,12)); (COLON,(3,13)); (RETURN,(3,15)); (IDENT "x",(3,22)); (NEWLINE,(3,23));
+   (OUTDENT,(4,5)); (RETURN,(4,5)); (IDENT "b",(4,12)); (NEWLINE,(4,13));
+   (OUTDENT,(5,1)); (IDENT "y",(5,1)); (EQ,(5,3)); (IDENT "f",(5,5)); (LPAREN,(5,6)); (LBRACK,(5,7)); (INT 1,(5,8));
+   (RBRACK,(5,9)); (COMMA,(5,10)); (INT 2,(5,12)); (RPAREN,(5,13)); (SEMI,(5,14)); (PASS,(5,16)); (NEWLINE,(5,20));
+   (EOF,(6,1))]%Z.
+Definition ex2_file : list cstmt :=
+  [CDef (1,1) (1,5) "f" (1,6)
+     [Ident (1,7) "a"; Binary (Ident (1,10) "b") (1,11) EQ (Literal (1,12) (LInt 1))] false (1,13)
+     (SBlock [CFor (2,5) (Ident (2,9) "x") (Ident (2,14) "a")
+                (SBlock [CIf (3,9) (Ident (3,12) "x")
+                           (SInline [ReturnStmt (3,15) (Some (Ident (3,22) "x"))] false) [] None]);
+              CSimple [ReturnStmt (4,5) (Some (Ident (4,12) "b"))] false]);
+   CSimple [AssignStmt (Ident (5,1) "y") (5,3) EQ
+              (Call (Ident (5,5) "f") (5,6)
+                 [ListE (5,7) [Literal (5,8) (LInt 1)] false (5,9); Literal (5,12) (LInt 2)] false (5,13));
+            BranchStmt (5,16) PASS] false]%Z.
+(* the same file with the `:` after `for x in a` deleted, and with the last NEWLINE deleted *)
+Definition ex2_no_colon : list ptok := firstn 16 ex2_tokens ++ skipn 17 ex2_tokens.
+Definition ex2_no_final_nl : list ptok := firstn 42 ex2_tokens ++ skipn 43 ex2_tokens.
+Example parse_sound_file_ex :
+  parse_file ex2_tokens = Ok (flat_map flatten ex2_file) /\
+  no_empty_block (U ex2_tokens) /\ no_blank_line true (U ex2_tokens) /\
+  (forall a b, U ex2_tokens = a ++ EOF :: b -> b = []) /\
+  forallb cstmt_ok ex2_file = true /\
+  U ex2_tokens = U (flat_map tokens_c ex2_file) ++ [EOF] /\
+  (exists r, p_stmt (parsers 200) ex2_tokens = Ok (flatten (hd (CSimple [] false) ex2_file), r) /\ peek r = IDENT "y") /\
+  parse_file ex2_no_colon = Err /\
+  parse_file ex2_no_final_nl = Ok (flat_map flatten ex2_file) /\
+  U ex2_no_final_nl = removelast (U (flat_map tokens_c ex2_file)) ++ [EOF] /\
+  (* the witness of parse_sound_stmt_unconditional_refuted violates the premise,
+     and is the rendering of the tree with an empty block *)
+  has_empty_block (U EmptyBlock.toks) = true /\
+  (let c := CIf (1,1)%Z (Ident (1,4)%Z "x") (SBlock []) [] None in
+   p_stmt (parsers 60) EmptyBlock.toks = Ok (flatten c, []) /\ cstmt_okg false c = true /\
+   cstmt_ok c = false /\ U EmptyBlock.toks = U (tokens_c c)).
+Proof.
+  split; [vm_compute; reflexivity|].
+  split; [apply has_empty_block_false; vm_compute; reflexivity|].
+  split; [apply no_blank_lineb_true; vm_compute; reflexivity|].
+  split; [apply (eof_last_intro (removelast (U ex2_tokens))); [vm_compute; intuition discriminate|vm_compute; reflexivity]|].
+  split; [vm_compute; reflexivity|]. split; [vm_compute; reflexivity|].
+  split; [eexists; split; vm_compute; reflexivity|].
+  split; [vm_compute; reflexivity|]. split; [vm_compute; reflexivity|]. split; [vm_compute; reflexivity|].
+  split; [vm_compute; reflexivity|]. cbv zeta. repeat split; vm_compute; reflexivity.
 Qed.
